@@ -6,6 +6,9 @@
   Output: first line `classes: <comma separated known-finding classes of the script, or ->`, then one line per
   transcript line of a chunk operation.  `data=?` marks payloads of the container's own chunks (not modelled).
   When the script is in a class the round trip is not claimed for, only the `setchunk` lines are predicted.
+  `setchunk` follows the repaired rule `Sf.Chunk.accepts` (reserved / unprintable ids and calls after the audio are
+  refused: `ret=E err=0`, E = some non-zero error number); class `pass-through` = an accepted id the container's
+  reader looks into (LIST, INFO, PAD / APPL / free): the read side is then not predicted.
 -/
 import SfModel
 open Sf Sf.Chunk
@@ -55,16 +58,14 @@ def finish (s : St) : St :=
   let pre := preLen c
   let earlyL := s.early.toList
   let lateL := s.late.toList
-  let wsE := earlyL.map fun p => WChunk.ofInfo g0 p.1 p.2
-  let wsL := lateL.map fun p => WChunk.ofInfo g0 p.1 p.2
+  let wsE := earlyL.map fun p => WChunk.ofInfo p.1 p.2
+  let wsL := lateL.map fun p => WChunk.ofInfo p.1 p.2
   let lenE := (wsE.map fun w => hdrLen c + w.len).foldl (· + ·) 0
   let lenL := (wsL.map fun w => hdrLen c + w.len).foldl (· + ·) 0
   let all := earlyL ++ lateL
   let ws := wsE ++ wsL
   let cls : List String :=
-    (if all.any (fun p => KF.shortId p.1) then ["short-id"] else []) ++
-    (if all.any (fun p => KF.unprintableId c p.1) then ["unprintable-id"] else []) ++
-    (if all.any (fun p => KF.reservedId c p.1) then ["reserved-id"] else []) ++
+    (if all.any (fun p => (passThrough c).contains (markerOf p.1)) then ["pass-through"] else []) ++
     (if !hdrFits c pre (ws.map (·.len)) then ["header-cache"] else []) ++
     (if lateL.length > 0 && headerLen c pre (lenE + lenL) != headerLen c pre lenE then ["late-grow"] else [])
   if cls.length > 0 then { s with classes := cls } else
@@ -105,16 +106,15 @@ def step (s : St) (line : String) : St :=
       { s with vio := ((kvOf rest "route").getD "vio") == "vio", it := none }
   | "setchunk" :: _ :: id :: rest =>
     let p : Id × List Byte := (parseHexBytes id, parseHexBytes (rest.headD ""))
-    let s := { s with out := s.out.push "ret=0 err=0" }
-    if s.wrote then { s with late := s.late.push p } else { s with early := s.early.push p }
+    if accepts s.c s.wrote p.1 then { s with out := s.out.push "ret=0 err=0", early := s.early.push p }
+    else { s with out := s.out.push "ret=E err=0" }
   | "w" :: _ :: ty :: _ :: n :: _ =>
     { s with wrote := true, audio := s.audio + tyWidth ty * n.toNat! }
   | "close" :: _ => if s.tab.isEmpty && s.classes.isEmpty then finish s else s
   | "chunkall" :: _ :: id :: rest =>
     if s.classes.length > 0 then s else
     let want := rest.head?.bind String.toNat?
-    let start := iterStart s.tab g0 s.stale (idArg id)
-    let s := if KF.staleIterator s.stale (idArg id) && start.isSome then { s with rclasses := s.rclasses ++ ["stale-iterator"] } else s
+    let start := iterStart s.tab s.stale (idArg id)
     let s := if start.isSome then { s with stale := 0 } else s
     let visited := iterRun s.tab (s.tab.length + 1) start
     let lines := visited.map fun i => "c " ++ chunkLine s i want
@@ -128,8 +128,7 @@ def step (s : St) (line : String) : St :=
     | none => { s with it := none, out := ((s.out.push head) ++ lines.toArray).push s!"end n={visited.length}" }
   | "chunkiter" :: _ :: id :: _ =>
     if s.classes.length > 0 then s else
-    let start := iterStart s.tab g0 s.stale (idArg id)
-    let s := if KF.staleIterator s.stale (idArg id) && start.isSome then { s with rclasses := s.rclasses ++ ["stale-iterator"] } else s
+    let start := iterStart s.tab s.stale (idArg id)
     { s with it := start, stale := (start.map (·.hash)).getD s.stale, out := s.out.push s!"it={if start.isSome then 1 else 0} err=0" }
   | "chunknext" :: _ =>
     if s.classes.length > 0 then s else
